@@ -236,6 +236,12 @@ Slacks(c) ==          \* one entry per direction (comparisons that differ by a c
     [] c.ep = "AEAD_encrypt" -> <<Scratch - c.x, Scratch - Tag - c.x>>
     [] c.ep = "HP_apply"     -> <<c.x - 1 - c.pn, c.y - (PnMax - c.pn + SampleLen), Scratch - c.x, Scratch - c.x - c.y>>
     [] c.ep = "HP_remove"    -> <<c.x - (c.y + PnMax + SampleLen), c.x - (c.y + PnMax), Scratch - c.y - PnMax>>
+\* where along its threshold line a call sits (0: the threshold is a point, not a line)
+Along(c) ==
+  CASE c.ep = "AEAD_decrypt" -> <<0, 0, 0>>
+    [] c.ep = "AEAD_encrypt" -> <<0, 0>>
+    [] c.ep = "HP_apply"     -> <<c.y, c.x, c.y, c.x>>
+    [] c.ep = "HP_remove"    -> <<c.y, c.y, c.x>>
 NK(k) == k >= -2 /\ k <= 1
 Near(c)   == LET s == Slacks(c) IN \E i \in DOMAIN s : NK(s[i])
 Corner(c) == LET s == Slacks(c) IN Cardinality({s[i] : i \in {j \in DOMAIN s : NK(s[j])}}) >= 2
@@ -299,7 +305,11 @@ FitsIsInBounds == Row(FitsAt)
 OffLemma == c.y = -1 /\ c.ep = "HP_remove" => (OffStruct(c.x) <=> ReachOff(c.x))
 
 (* printing threshold calls for the replay into the sanitizer build *)
-Thin(d) == (d.x + 7 * d.y) % Stride = Phase \/ Corner(d)
+\* thinning: whole cross-sections of a threshold line (all four slack values -2..1) every Stride
+\* positions, so both sides of every threshold are always present; point thresholds and corners always
+Thin(d) == \/ LET sl == Slacks(d)  al == Along(d) IN
+                \E i \in DOMAIN sl : NK(sl[i]) /\ (al[i] = 0 \/ al[i] % Stride = Phase)
+           \/ Corner(d)
 EmitAt(d) ==
   Near(d) /\ Reach(d) /\ Thin(d) =>
     PrintT(<<"NEAR", d.ep, d.x, d.y, d.pn, Guard(d, {}), Guard(d, AllBounded), FirstBroken(d)>>)
